@@ -57,7 +57,7 @@ def _worker(wid: int, shared, n: int, conn):
 
 
 def explore_all(ctx: Ctx, factories: List[Callable], *, max_states=3000,
-                max_seconds=240) -> Stats:
+                max_seconds=240, max_violations=3) -> Stats:
     """Explore every profile with a pool of search workers sharing one
     visited set per profile (work items: replay a prefix + one event)."""
     global _FACTORIES
@@ -75,7 +75,7 @@ def explore_all(ctx: Ctx, factories: List[Callable], *, max_states=3000,
     mgr.start()
     total = Stats()
     try:
-        shared = mgr.Shared(n, max_states, max_seconds, 3)
+        shared = mgr.Shared(n, max_states, max_seconds, max_violations)
         shared.push([(i, [], None, None) for i in reversed(range(n))])
         procs = []
         nw = max(1, min(ctx.workers, 16))
